@@ -1,13 +1,12 @@
 #!/bin/bash
 # C11: the repository's strto*/ato*/qsort/bsearch sources compiled against the host headers + shim and
 # prefixed igc_ (glibc's unprefixed functions are the reference). igc_rand is a choice point in the harness;
-# qsort's memcpy is mapped back to the host's (the repository's memcpy is C08's subject).
+# references the stdlib objects do not define themselves (qsort's memcpy - the repository's memcpy is C08's subject) bind to the host.
 set -e
 . $MC/par.sh
 H=$VERIF/harness/c11
 . $H/igc_objs.sh
 igc_shim $BUILD/shim
-export IGC_KEEP="__stack_chk_fail __errno_location memcpy"
 OBJS=""
 for f in $REPO/compat/libc/stdlib/{strtol,strtoul,strtoll,strtoull,atol,qsort,bsearch}.c $REPO/compat/libc/inttypes/{strtoimax,strtoumax}.c; do
     o=$BUILD/igc_$(basename $f .c).o
@@ -20,6 +19,7 @@ CXX="g++ -std=c++17 -O2 -g -fno-builtin -I$MC -I$H"
 for t in c11_strto c11_sort c11_large; do par $CXX -c $H/$t.cpp -o $BUILD/$t.o; done
 par g++ -std=c++17 -O2 -c -I$MC $MC/mc.cpp -o $BUILD/mc.o
 parwait
+igc_resolve $OBJS   # qsort's memcpy (and anything else the repository's stdlib objects do not define) binds to the host
 for fn in strtol strtoul strtoll strtoull strtoimax strtoumax atoi atol qsort bsearch; do
     nm $OBJS | grep -q " [TW] igc_$fn\$" || { echo "igc_$fn is not defined by the repository sources"; exit 1; }
 done
